@@ -215,6 +215,18 @@ def o_scenario_seconds(rep):
 
 
 # ---------------------------------------------------------------------------------------------
+def replay_target_date(d):
+    from resonaate.physics.time.conversions import getTargetJulianDate
+    from resonaate.physics.time.stardate import datetimeToJulianDate
+
+    t0 = _dt.datetime(1901, 1, 1) + _dt.timedelta(days=d["n0"], seconds=d["sod0"])
+    delta = _dt.timedelta(seconds=d["D"])
+    got = float(getTargetJulianDate(datetimeToJulianDate(t0), delta))
+    want = float(datetimeToJulianDate(t0 + delta))
+    # the two may legitimately differ by the round trip of the start date only if that round trip is broken (C05 roundtrip); compare within one second
+    return abs(got - want) > 0.5 / 86400, {"start": t0.isoformat(), "duration_s": d["D"], "target_jd": got, "expected_jd": want, "difference_s": (got - want) * 86400}
+
+
 def o_target_date(rep):
     """getTargetJulianDate(jd, delta) = Julian date of (julianDateToDatetime(jd) + delta), second included."""
     def run():
@@ -244,6 +256,7 @@ def o_target_date(rep):
         js, seen, out, want = r.out
         n += 1
         rep.prove(f"target-date#{k}", z3.And(out.t == want.t, z3.BoolVal(len(seen) == 1), seen[0].t == js.t if seen else z3.BoolVal(False)), r.constraints, timeout_ms=120000,
+                  inputs=lambda m: {"n0": mval(m, z3.Int("n0")), "sod0": mval(m, z3.Int("sod0")), "D": mval(m, z3.Int("D"))}, replay=replay_target_date,
                   sample="getTargetJulianDate(jd, D) is the Julian date of (calendar instant of jd) + D, computed from all six fields")
     if not n:
         rep.error("reach", "no path")
@@ -477,6 +490,7 @@ def obligations(tier):
     obs.append(Ob("monotone", o_monotone, "strict monotonicity from accuracy", 60))
     obs.append(Ob("scenario-seconds", o_scenario_seconds, "scenario seconds round-trip through Julian dates", 300))
     REPLAYS["scenario-seconds"] = replay_sround
+    REPLAYS["target-date"] = replay_target_date
     obs.append(Ob("target-date", o_target_date, "getTargetJulianDate data flow", 600))
     for dt in ((1, 60, 300, 3080) if tier == "quick" else (1, 2, 7, 45, 60, 300, 3080, 86400)):
         obs.append(Ob(f"step-count-dt{dt}", (lambda dt: lambda rep: o_step_count(rep, dt))(dt), f"timed run: number of steps, dt={dt}", 600))
